@@ -247,7 +247,8 @@ class _Continue(Exception):
     pass
 
 
-BUILTIN_TYPES = ('int', 'bool', 'bytes', 'bytearray', 'str', 'tuple', 'list', 'dict', 'set', 'frozenset', 'object', 'float', 'type')
+BUILTIN_TYPES = ('int', 'bool', 'bytes', 'bytearray', 'str', 'tuple', 'list', 'dict', 'set', 'frozenset', 'object', 'float', 'type',
+                 'memoryview', 'complex')      # the last two only as isinstance targets: no modelled value has these types
 BUILTIN_FUNCS = ('len', 'max', 'min', 'range', 'abs', 'divmod', 'isinstance', 'sum', 'ord', 'chr', 'reversed', 'enumerate', 'zip',
                  'any', 'all', 'hex', 'pow', 'sorted', 'super', 'iter', 'next', 'callable', 'repr', 'issubclass', 'hasattr', 'getattr',
                  'setattr', 'vars', 'format', 'bin', 'oct', 'round', 'map', 'staticmethod', 'classmethod')
